@@ -133,7 +133,15 @@ def expand(fn: ast.FunctionDef, call: ast.Call, is_method: bool, make):
     if set(allp) - set(binding) or len(args) > len(params):
         return None
     pre = []
+    uses = {}
+    for n in ast.walk(fn):
+        if isinstance(n, ast.Name) and isinstance(n.ctx, ast.Load):
+            uses[n.id] = uses.get(n.id, 0) + 1
+    in_loop = {n.id for lp in ast.walk(fn) if isinstance(lp, (ast.For, ast.While, ast.ListComp, ast.GeneratorExp, ast.SetComp, ast.DictComp, ast.Lambda))
+               for n in ast.walk(lp) if isinstance(n, ast.Name)}
     for p_ in list(binding):
+        if not _simple(binding[p_]) and uses.get(p_, 0) == 1 and p_ not in in_loop:
+            continue          # read exactly once, outside any loop: the argument expression takes the parameter's place
         if not _simple(binding[p_]):
             # an argument that is an expression: bind it to a local of the parameter's name first (what the code looked like before the
             # block was given a name)
